@@ -78,6 +78,11 @@ theorem vdot_flat_complex (a b : PTree GInt) (v : GInt) (h : vdotTree GInt.conj 
 
 theorem sum_flat_complex (t : PTree GInt) (s : GInt) (h : sumTree t = some s) : s = t.flatten.sum := Pytree.sum_flat t s h
 
+/-- **mean_flat** (forest helper): `mean(forest)` is `1/n` times the entry-wise sum of the members' flat arrays -/
+theorem mean_flat {α : Type} [Add α] [Mul α] (inv : α) (t : PTree α) (ts : List (PTree α)) (r : PTree α)
+    (h : meanTrees inv (t :: ts) = some r) :
+    r.flatten = (sumFlats t.flatten (ts.map PTree.flatten)).map fun x => inv * x := Pytree.mean_flat inv t ts r h
+
 /-! ### sequential maps -/
 
 /-- scanning over axis 0 of `moveaxis(a, i, 0)` visits the slices of `a` along axis `i` -/
